@@ -168,7 +168,8 @@ func (r *c06Run) Main(s *sim.Sim) {
 		return
 	}
 	// gopcua is the server: its Acknowledge comes from the public default
-	*uacp.DefaultServerACK = uacp.Acknowledge{ReceiveBufSize: r.AckRecv, SendBufSize: r.AckSend, MaxChunkCount: 512, MaxMessageSize: 2 << 20}
+	const srvMaxMsg = 400000
+	*uacp.DefaultServerACK = uacp.Acknowledge{ReceiveBufSize: r.AckRecv, SendBufSize: r.AckSend, MaxChunkCount: 512, MaxMessageSize: srvMaxMsg}
 	big := fill(9, 3*int(r.HelRecv))
 	e, err := startServer(s, func(e *env) { e.ns.AddNewVariableStringNode("big", big) })
 	if err != nil {
@@ -244,6 +245,33 @@ func (r *c06Run) Main(s *sim.Sim) {
 	if w, ok := svc.(*ua.WriteResponse); err != nil || !ok || len(w.Results) != 1 || w.Results[0] != ua.StatusOK {
 		s.Fail("C06", "entitled-chunk-rejected", "server-rejects-chunk-within-its-receive-buffer", "a request sent in chunks of %d bytes (the server's announced receive buffer) failed: %v %T", cl.Ack.RecvBuf, err, svc)
 		return
+	}
+	// (c) the limit the server announced for itself: a request of MaxMessageSize + a little
+	// (less than one chunk above the limit, up to a few chunks above) must not be served
+	if cl.Ack.MaxMsg != srvMaxMsg {
+		s.Fail("C06", "negotiation", "server-announces-other-max-message-size", "the server was configured with MaxMessageSize %d and acknowledged %d", srvMaxMsg, cl.Ack.MaxMsg)
+		return
+	}
+	for _, over := range r.Sizes {
+		if over < 0 {
+			over = -over
+		}
+		over = 1 + over%(3*int(cl.Ack.RecvBuf))
+		base, _ := encodeService(writeReq(e.nodeID("big"), []byte{}))
+		payload := srvMaxMsg + over - len(base) - 40
+		before := e.ns.Node(e.nodeID("big")).Value()
+		svc, err = sendWithToken(writeReq(e.nodeID("big"), fill(5, payload)))
+		after := e.ns.Node(e.nodeID("big")).Value()
+		served := false
+		if w, ok := svc.(*ua.WriteResponse); err == nil && ok && len(w.Results) == 1 && w.Results[0] == ua.StatusOK {
+			served = true
+		}
+		if served || before != after {
+			s.Fail("C06", "limit-ignored", "server-serves-message-over-its-own-limit", "the server announced MaxMessageSize %d and served a request of about %d bytes (%d over; response %T err=%v, value changed: %v)", srvMaxMsg, srvMaxMsg+over, over, svc, err, before != after)
+			return
+		}
+		s.Probe("oversized-request-refused-by-server")
+		break // the channel is gone after a refused message
 	}
 	s.Probe("server-role-ok")
 	if asym {
